@@ -189,8 +189,15 @@ class Charge:
             pixel_index_hor: np.ndarray,
         ) -> np.ndarray:  # pragma: no cover
             """Assign charges in dataframe to nearest pixel."""
+            num_rows, num_cols = array.shape
             for i, charge_value in enumerate(charge_per_pixel):
-                array[pixel_index_ver[i], pixel_index_hor[i]] += charge_value
+                row = pixel_index_ver[i]
+                col = pixel_index_hor[i]
+
+                # Ignore the charges located outside the detector's sensitive area
+                # (indices are not checked by numba and negative indices wrap around)
+                if 0 <= row < num_rows and 0 <= col < num_cols:
+                    array[row, col] += charge_value
             return array
 
         array = np.zeros((self._geo.row, self._geo.col))
